@@ -353,3 +353,13 @@ def run(facts, rep, ctx):
     round4.fw2(facts, rep)
     round4.sb5b(facts, rep)
 
+
+
+_run_before_round6 = run
+
+
+def run(facts, rep, ctx):
+    """rules added after the fifth seeding round (rules/round6.py)"""
+    _run_before_round6(facts, rep, ctx)
+    from . import round6
+    round6.sb5c(facts, rep)
